@@ -55,7 +55,8 @@ RULE = ('A: strings of 0-8 tokens over the alphabet {a b space \' " \\ newline t
         'statement has one literal decoding to it and SQLite returns it; FlagValue of a '
         'value without live references: token sequence of the control value "abc" with '
         'the literal decoding to the value, SQLite returns it; cycles/undefined names as '
-        'before.  Evaluations are '
+        'before; user flags additionally go through logica.py ReadUserFlags as '
+        '--name=value arguments and must come back unchanged.  Evaluations are '
         '(case, engine) pairs.  Non-trivial (A) = the string has a character outside '
         '[a-z0-9 ]; (B) = at least one reference between flags or a hostile character in '
         'a value; distinct by hash of '
@@ -857,6 +858,55 @@ def run_literal(col, s, forms):
                      '[%s] %s' % (r2[0], r2[1]))
 
 
+_cli = {}
+
+
+def cli_reader():
+    """logica.py's ReadUserFlags (the command line's --flag=value reader), taken from
+    the source of the repository under test: logica.py is a script with package-relative
+    imports, so the one function is compiled on its own with the names it uses."""
+    k = core.repo_path()
+    if k not in _cli:
+        import ast
+        import getopt
+        from common import color
+        path = os.path.join(k, 'logica.py')
+        with open(path) as f:
+            tree = ast.parse(f.read())
+        fn = [n for n in tree.body
+              if isinstance(n, ast.FunctionDef) and n.name == 'ReadUserFlags']
+        ns = {'getopt': getopt, 'sys': sys, 'universe': drive.universe, 'color': color}
+        exec(compile(ast.Module(body=fn, type_ignores=[]), path, 'exec'), ns)
+        _cli[k] = ns['ReadUserFlags']
+    return _cli[k]
+
+
+def check_cli(defs, user, forms=None):
+    """--name=value arguments for defined flags come back as exactly {name: value}."""
+    defs = [tuple(d) for d in defs]
+    text = flag_program(defs, '', 'sqlite', forms)
+    argv = ['--%s=%s' % (n, v) for n, v in sorted(user.items())]
+    hdr = '--- argv %r\n%s' % (argv, text)
+    try:
+        with drive.quiet():
+            rules = drive.parse.ParseFile(text)['rule']
+    except BaseException:
+        return []
+    try:
+        with drive.quiet():
+            got = cli_reader()(rules, argv)
+    except (KeyboardInterrupt, MemoryError):
+        raise
+    except BaseException as e:
+        return [('flags:cli_flag_rejected',
+                 'ReadUserFlags refuses values for defined flags: %s: %s\n%s' % (
+                     type(e).__name__, e, hdr))]
+    if got != dict(user):
+        return [('flags:cli_flag_value_differs',
+                 'ReadUserFlags returned %r, expected %r\n%s' % (got, dict(user), hdr))]
+    return []
+
+
 def hostile_classes(defs, user):
     out = set()
     for v in [v for n, v in defs] + list(user.values()):
@@ -883,6 +933,13 @@ def run_flags(col, defs, user, use, forms=None, read=None):
     nt = nt or bool(hc)
     if m['kind'] in ('ambiguous_parameter_scan', 'order_dependent_expansion'):
         col.exclude('flags_' + m['kind'])
+    if user:
+        fails = check_cli(defs, user, forms)
+        col.case(('flag_cli', defs, sorted(user.items()), forms), bool(hc) and not fails,
+                 ['flags:cli_reader'])
+        for b, d in fails:
+            col.fail(b, {'kind': 'flag', 'defs': [list(x) for x in defs], 'user': user,
+                         'use': use, 'engine': 'sqlite', 'forms': forms, 'cli': True}, d)
     for engine in ENGINES:
         key = ('flag', defs, sorted(user.items()), use, forms, read, engine)
         if m['kind'] == 'cycle' and m['exponential'] and EXCLUDE_EXP_CYCLES:
@@ -924,6 +981,8 @@ def shard(ctx, col):
 
 def check_case(case):
     drive.enable_library_cache()
+    if case.get('kind') == 'flag' and case.get('cli'):
+        return check_cli(case['defs'], case.get('user', {}), case.get('forms'))
     if case.get('kind') == 'flag':
         fails, labels = check_flags(case['defs'], case.get('user', {}), case['use'],
                                     case['engine'], allow_exponential=True,
